@@ -607,9 +607,8 @@ Proof.
     + eapply shut_swap_active_inv; eauto.
     + apply shut_swap_avail_inv; auto.
   - (* LShutJoin *)
-    destruct (s_sd s) as [| |[|t r] nz|[|t r] nz|] eqn:Hsd; try discriminate;
-      destruct (thr_idle (thr_of s t)); try discriminate; injection Hst as <- <-;
-      eapply shut_join_inv; eauto.
+    destruct (s_sd s) as [| |[|t r] nz|[|t r] nz|] eqn:Hsd; try discriminate; cbv zeta in Hst;
+      (destruct (thr_idle (thr_of s t)); [|discriminate]). idtac.
   - (* LShutEnd *)
     destruct (s_sd s) as [| | |[|t r] [|]|] eqn:Hsd; try discriminate. injection Hst as Hb.
     destruct (shut_end s) as [s1 e1] eqn:He. injection Hb as <- <-. eapply shut_end_inv; eauto.
